@@ -11,7 +11,7 @@ import (
 )
 
 func init() {
-	register("C10", "Determinism: (R1) order taint — every range over a Go map reachable from Validate/LoadSchema has a body limited to order-insensitive effects, and a slice built in map order is sorted by a total order before any other use; (R2) no other nondeterministic source (goroutines, select, channels, time, rand, environment, %p, pointer-to-integer conversions, reflect map iteration) is reachable; (R3) re-validation: the walker writes only the annotation fields and never reads an annotation from a node it reached by a lookup instead of by descent; (R4) validation does not modify the schema or package-level state (C11.R1/R2 over the validation scope), so a later validation sees what the first saw. With the standard library and levenshtein assumed deterministic this is close to the whole property.", runC10)
+	register("C10", "Determinism: (R1) order taint — every range over a Go map reachable from Validate/LoadSchema has a body limited to order-insensitive effects, and a slice built in map order is sorted by a total order before any other use; (R2) no other nondeterministic source (goroutines, select, channels, time, rand, environment, %p, pointer-to-integer conversions, reflect map iteration) is reachable; (R3) re-validation: the walker writes only the annotation fields and never reads an annotation from a node it reached by a lookup instead of by descent; (R4) validation does not modify the schema or package-level state (C11.R1/R2 over the validation scope), so a later validation sees what the first saw. With the standard library and levenshtein assumed deterministic this is close to the whole property. (R6) no process-wide state besides the rule registry.", runC10)
 }
 
 func validationScope(p *Program, e *effects) map[*ssa.Function]bool {
@@ -275,6 +275,9 @@ func runC10(c *Ctx) {
 		}
 	}
 	treeWrites(c, e, docScope, r5, "validation code")
+
+	r6 := c.Rule("R6", "no process-wide state: package-level variables are only read after init (rule registry excepted)", 1)
+	noProcessState(c, r6, []string{"validator.Validate", "validator.ValidateWithRules", "gqlparser.LoadQuery", "gqlparser.LoadQueryWithRules", "parser.ParseQuery", "parser.ParseQueryWithTokenLimit"})
 
 	c.Assume("library calls (fmt, strings, sort, strconv, agnivade/levenshtein) are deterministic functions of their arguments; sort.Slice on an input in deterministic order yields a deterministic order")
 }
